@@ -46,6 +46,19 @@ impl Serve for AsyncSide<'_> {
     }
 }
 
+struct AsyncSide2<'a>(&'a Server<Arc<fuse_backend_rs::api::Vfs>>);
+
+impl Serve for AsyncSide2<'_> {
+    fn serve<S: BitmapSlice>(&self, r: Reader<'_, S>, w: Writer<'_, S>, vu: Option<&mut dyn FsCacheReqHandler>) -> Result<usize, String> {
+        let fut = unsafe { self.0.async_handle_message(r, w, vu, None) };
+        let mut fut = Box::pin(fut);
+        match block_on(fut.as_mut()) {
+            Ok(r) => r.map_err(|e| format!("{:?}", e)),
+            Err(e) => Err(e),
+        }
+    }
+}
+
 struct Rig {
     fs: Arc<ScriptFs>,
     server: Server<Arc<ScriptFs>>,
@@ -249,6 +262,76 @@ fn c20(args: &Args) -> Report {
         }
     }
     rig.fs.remap.store(false, std::sync::atomic::Ordering::Relaxed);
+    // The Vfs has an asynchronous implementation of its own (lookup, getattr, setattr, open, create, read, write,
+    // fsync, fallocate, fsyncdir): a Vfs with the scripted filesystem mounted on "/" (per-mount id mapping) and on
+    // "/m" (another mapping), a global mapping, and every opcode's base request plus deviations, addressed to the
+    // VFS root (node 1), to an inode of the "/" mount and to the root and an inode of the "/m" mount. The backend's
+    // call log and the reply bytes must agree between the two handlers.
+    {
+        use fuse_backend_rs::api::{Vfs, VfsOptions};
+        let vfs = Arc::new(Vfs::new(VfsOptions { id_mapping: (0, 1000, 10), ..VfsOptions::default() }));
+        let slot_root = vfs.mount_with_id_mapping(Box::new(ScriptFs::new()), "/m", Some((0, 200_000, 65536))).expect("mount /m") as u64;
+        let slot_top = vfs.mount_with_id_mapping(Box::new(ScriptFs::new()), "/", Some((0, 100_000, 65536))).expect("mount /") as u64;
+        let server = Server::new(vfs.clone());
+        let backends = || -> Vec<Arc<fuse_backend_rs::api::BackFileSystem>> { ["/", "/m"].iter().filter_map(|p| vfs.get_rootfs(p).ok().flatten().map(|(b, _)| b)).collect() };
+        let nodes: [u64; 4] = [1, (slot_top << 56) | 0x4242, (slot_root << 56) | 1, (slot_root << 56) | 0x4242];
+        let caller_sets: [(u32, u32); 3] = [(0, 0), (100_007, 200_009), (1_005, 7)];
+        let dev = FuseDev::new();
+        let mut dev = dev;
+        for &op in ops::ALL_OPS.iter().filter(|o| **o != k::FUSE_INIT && **o != k::FUSE_DESTROY && **o != k::FUSE_FORGET && **o != k::FUSE_BATCH_FORGET) {
+            for (label, c) in fbrv::engines::wire_eng::c02_dev1_cases(op, false).into_iter().take(3) {
+                for &node in &nodes {
+                    for &(uid, gid) in &caller_sets {
+                        if rep.mine(idx) {
+                            let mut c = c.clone();
+                            c.nodeid = node;
+                            c.uid = uid;
+                            c.gid = gid;
+                            if c.f.contains_key("uid") {
+                                c.f.insert("uid", 100_003);
+                                c.f.insert("gid", 200_004);
+                            }
+                            let req = c.req().bytes();
+                            let mut side = |asynch: bool| -> (Vec<Vec<u8>>, Vec<String>) {
+                                let bs = backends();
+                                for b in &bs {
+                                    if let Some(s) = b.as_any().downcast_ref::<ScriptFs>() {
+                                        s.reset(Script::OkSmall.answer());
+                                    }
+                                }
+                                let ex = if asynch { dev.via_file(&AsyncSide2(&server), &req, 8192 + 16) } else { dev.via_file(&server, &req, 8192 + 16) };
+                                let mut log = Vec::new();
+                                for (i, b) in bs.iter().enumerate() {
+                                    if let Some(s) = b.as_any().downcast_ref::<ScriptFs>() {
+                                        log.extend(s.take_log().into_iter().map(|l| format!("backend{}:{}", i, l.replace("async_", ""))));
+                                    }
+                                }
+                                (ex.records, log)
+                            };
+                            let (rs, ls) = side(false);
+                            let (ra, la) = side(true);
+                            rep.eval();
+                            rep.transitions += 2;
+                            let opn = ops::op_name(op);
+                            let mut diffs: Vec<(String, String)> = Vec::new();
+                            if ls != la {
+                                diffs.push(("vfs-backend-call-differs".into(), format!("through the Vfs, node {:#x}, caller ({},{}): sync handler made the backends see {:?}, async handler {:?}", node, uid, gid, ls, la)));
+                            }
+                            if rs != ra {
+                                diffs.push(("vfs-reply-differs".into(), format!("through the Vfs, node {:#x}: sync emitted {:?}, async emitted {:?}", node, rs.iter().map(|r| hex(&r[..r.len().min(64)])).collect::<Vec<_>>(), ra.iter().map(|r| hex(&r[..r.len().min(64)])).collect::<Vec<_>>())));
+                            }
+                            rep.outcome(&format!("{}:vfs:{}", opn, if diffs.is_empty() { "same" } else { "DIFFERENT" }));
+                            rep.state_of(&("vfs", op, &label, node, uid));
+                            for (class, msg) in diffs {
+                                rep.violation(&format!("C20/{}/{}", opn, class), &msg, || json!({"engine": "async-vfs", "case": label, "node": format!("{:#x}", node), "caller": [uid, gid]}));
+                            }
+                        }
+                        idx += 1;
+                    }
+                }
+            }
+        }
+    }
     rep.set("total_cases_all_shards", json!(idx));
     rep
 }
